@@ -126,6 +126,14 @@ func c01Pad(n int) int {
 	return 1 + (n/7)%3
 }
 
+// c01Lead: one case in eleven puts a satisfied rule with a quoted, comma-containing message in front.
+func c01Lead(n int) string {
+	if n%11 != 0 {
+		return ""
+	}
+	return []string{"required|'need it, really',", "required|'a,b',required,"}[(n/11)%2]
+}
+
 func c01Msg(n int) string {
 	if n%3 != 0 {
 		return ""
@@ -133,7 +141,7 @@ func c01Msg(n int) string {
 	return c01Msgs[(n/3)%len(c01Msgs)]
 }
 
-func judgeSize(res *core.Result, carrier string, v reflect.Value, rule string, lo, hi int64, msg string, pad int) {
+func judgeSize(res *core.Result, carrier string, v reflect.Value, rule string, lo, hi int64, msg string, pad int, lead string) {
 	defaultWording := msg == ""
 	m, ok := ref.Measure(v)
 	if !ok {
@@ -146,6 +154,11 @@ func judgeSize(res *core.Result, carrier string, v reflect.Value, rule string, l
 	if !defaultWording {
 		text += "|" + msg
 		res.Count("message_shape|" + msg)
+	}
+	if lead != "" {
+		// a satisfied companion rule in front (its quoted message contains the rule separator)
+		text = lead + text
+		res.Count("cases_with_a_quoted_companion_rule_in_front")
 	}
 	out, ok := drive.Carry(carrier, v, text)
 	if !ok {
@@ -312,7 +325,7 @@ func runC01(c *core.Ctx) {
 				n++
 				for _, s := range c01Strides {
 					if n%s.every == 0 {
-						judgeSize(res, s.carrier, v, rule, lo, hi, c01Msg(n), c01Pad(n))
+						judgeSize(res, s.carrier, v, rule, lo, hi, c01Msg(n), c01Pad(n), c01Lead(n))
 					}
 				}
 				res.DistinctEnum(1)
@@ -624,7 +637,7 @@ func c01Random(res *core.Result, rng *rand.Rand, i int) {
 		}
 	}
 	for _, cr := range carriers {
-		judgeSize(res, cr, v, rule, lo, hi, c01Msg(i), c01Pad(i))
+		judgeSize(res, cr, v, rule, lo, hi, c01Msg(i), c01Pad(i), c01Lead(i))
 		if near || ref.SizeViolated(rule, lo, hi, m) {
 			res.Distinct(cr + "|" + v.Type().String() + "|" + valStr(v) + "|" + text)
 		}
